@@ -138,6 +138,8 @@ def key_tag(ctx, report):
     def names(name):
         if name.startswith('DnsSecAlgorithm.'):
             return name.split('.', 1)[1]
+        if name.startswith('ByteOrder.') and name.endswith('.value'):
+            return {'BIG_ENDIAN': '>', 'NETWORK': '!', 'LITTLE_ENDIAN': '<', 'NATIVE': '='}.get(name.split('.')[1], '?')
         if name.startswith('ByteOrder.'):
             return name
         raise Unsupported('free name %s' % name)
